@@ -137,6 +137,10 @@ var filters = map[string]string{
 	"number": `.data.p | ltrimstr("p") | tonumber`,
 	"bool":   `.data.p == "p1"`,
 	"const":  `.data.missing`,
+	// an object with several keys, nested maps and an array: its checksum must not depend on map iteration order
+	"wide": `{"p": .data.p, "k": "c", "n": .metadata.name, "z": [1, 2], "m": {"a": .data.p, "b": 1, "c": {"x": 1, "y": 2}}}`,
+	// no jq: the projection is a Go function of the binding (FilterFunc, used by Go hooks)
+	"func": "",
 }
 
 func newWorld(eventTypes []string, filter, proj string, ms *metric_storage.MetricStorage) *world {
@@ -149,6 +153,12 @@ func newWorld(eventTypes []string, filter, proj string, ms *metric_storage.Metri
 	cfg.Kind = "ConfigMap"
 	cfg.ApiVersion = "v1"
 	cfg.JqFilter = filters[filter]
+	if filter == "func" {
+		cfg.FilterFunc = func(u *unstructured.Unstructured) (interface{}, error) {
+			p, _, _ := unstructured.NestedString(u.Object, "data", "p")
+			return map[string]interface{}{"p": p, "k": "c", "n": u.GetName()}, nil
+		}
+	}
 	cfg.KeepFullObjectsInMemory = true
 	cfg.Logger = log.NewNop()
 	var ets []kemtypes.WatchEventType
